@@ -107,10 +107,24 @@ where
     where
         T: Ord,
     {
-        let a = parse_filesize(&self.values[i].to_string()).unwrap_or(0);
-        let b = parse_filesize(&other.values[i].to_string()).unwrap_or(0);
+        let a = self.values[i].to_string();
+        let b = other.values[i].to_string();
 
-        a.cmp(&b)
+        // whole numbers (of either sign) compare exactly; anything else - a fraction, a formatted
+        // size such as 1.5MiB - by its value
+        match (a.parse::<i128>(), b.parse::<i128>()) {
+            (Ok(a), Ok(b)) => a.cmp(&b),
+            _ => Self::numeric_value(&a)
+                .partial_cmp(&Self::numeric_value(&b))
+                .unwrap_or(Ordering::Equal),
+        }
+    }
+
+    fn numeric_value(s: &str) -> f64 {
+        match s.parse::<f64>() {
+            Ok(value) if !value.is_nan() => value,
+            _ => parse_filesize(s).map_or(0.0, |size| size as f64),
+        }
     }
 
     #[inline]
